@@ -520,6 +520,18 @@ def iface_history(rng, cfg, nlines):
         r = rng.random()
         if r < 0.45:
             ops = iface_ops(rng, now, frames, trigs, ids, True)
+            if rng.random() < 0.35:
+                # a prologue in front of fetch_page: triggers recorded / frames stored BEFORE the page lookup still belong
+                # to the page that store_page saves (marker F = where fetch_page happens)
+                pre = []
+                for _ in range(rng.choice((1, 1, 2))):
+                    if rng.random() < 0.6:
+                        pre.append(["iadd", rng.choice(trigs).hex()])
+                    else:
+                        ts = [rng.choice(trigs) for _ in range(rng.choice((0, 1, 2)))]
+                        pre.append(["istore", str(now), hx(rng.choice(frames)), hx(bytes([rng.randrange(256)])), trig_word(ts),
+                                    str(rng.choice((-1, 3, 60))), "0"])
+                ops = pre + [["F"]] + ops
             script = ";".join(":".join(o) for o in ops) if ops else "-"
             h.append(f"ipage {now} {hx(rng.choice(pages))} {rng.choice((-1, 2, 60))} {hx(bytes(rng.randrange(256) for _ in range(rng.randrange(0, 6))))} {script}")
         elif r < 0.55:
@@ -617,6 +629,14 @@ def iface_judge(cases, outs):
             unlimited[0] = len(w) > 2 and w[2] == "0" and "lowmem" not in o.split("|")[-1].split()
         elif w[0] == "ipage":
             now, key, tmo = int(w[1]), w[2], int(w[3])
+            allops = [] if w[5] == "-" else [x.split(":") for x in w[5].split(";")]
+            pre_ops = allops[:allops.index(["F"])] if ["F"] in allops else []
+            post_ops = [x for x in (allops[allops.index(["F"]):] if ["F"] in allops else allops) if x != ["F"]]
+            pre_rec, pre_recs = set(), {}
+            for opw in pre_ops:         # prologue (iadd / istore only: their answer is always `ok`), run before the lookup
+                m = run_op(opw, "ok", pre_rec, now, pre_recs)
+                if m:
+                    bad.append((k, m))
             if res.startswith("cached"):
                 ent = pages.get(key)
                 if not live(ent, now):
@@ -626,10 +646,11 @@ def iface_judge(cases, outs):
             elif res.startswith("built"):
                 if unlimited[0] and live(pages.get(key), now):
                     bad.append((k, f"page {key} is live and cache.limit=0 configures no size limit, but it was not served from the cache"))
-                rec = set()
-                precs = {}
+                rec = pre_rec
+                precs = pre_recs
                 answers = res.split(None, 1)[1].split(";") if len(res.split(None, 1)) > 1 else []
-                ops = [] if w[5] == "-" else [x.split(":") for x in w[5].split(";")]
+                answers = answers[len(pre_ops):]
+                ops = post_ops
                 for i, opw in enumerate(ops):
                     m = run_op(opw, answers[i] if i < len(answers) else "", rec, now, precs)
                     if m:
